@@ -14,6 +14,8 @@ import (
 	"sync"
 	"time"
 
+	"github.com/uptrace/bun"
+
 	ledger "github.com/formancehq/ledger/internal"
 	"github.com/formancehq/ledger/internal/api/bulking"
 	ledgercontroller "github.com/formancehq/ledger/internal/controller/ledger"
@@ -46,23 +48,103 @@ type Tracer struct {
 	FaultInTx  bool
 	FaultSQL   string
 	Stmts      int // statements seen since the last Arm/Reset (for enumeration of fault positions)
+	// context cancellation, triggered synchronously from the hooks:
+	//   CancelAtStmt(k, cancel)       : cancel() is called right after the k-th statement from now has executed (the
+	//                                   driver then reports context.Canceled for it)
+	//   CancelBeforeCommit(n, cancel) : cancel() is called right before the (n+1)-th top-level bun.Tx.Commit from now,
+	//                                   which then waits (bounded poll on pgsem's transaction state) until database/sql has
+	//                                   rolled the transaction back, so that sql.Tx.Commit returns sql.ErrTxDone
+	cancelStmt   int
+	cancelStmtN  int
+	cancelCommit int
+	cancelFn     func()
+	CancelHit    bool
+	CancelOnLog  bool
+	openTx       int // explicit top-level transactions currently open on pgsem
+}
+
+type bunCommitHook struct{ t *Tracer }
+
+func (h bunCommitHook) BeforeQuery(ctx context.Context, ev *bun.QueryEvent) context.Context {
+	if ev.Query == "COMMIT" {
+		h.t.beforeCommit()
+	}
+	return ctx
+}
+func (h bunCommitHook) AfterQuery(context.Context, *bun.QueryEvent) {}
+
+func (t *Tracer) beforeCommit() {
+	t.mu.Lock()
+	fire := t.cancelCommit == 0
+	if t.cancelCommit >= 0 {
+		t.cancelCommit--
+	}
+	fn := t.cancelFn
+	t.mu.Unlock()
+	if fire && fn != nil {
+		t.mu.Lock()
+		t.CancelHit = true
+		t.mu.Unlock()
+		fn()
+		t.WaitNoOpenTx("cancel before COMMIT: database/sql never rolled the transaction back")
+	}
+}
+
+// WaitNoOpenTx polls pgsem's transaction state (as reported by TxHook) until no explicit transaction is open; bounded.
+func (t *Tracer) WaitNoOpenTx(what string) {
+	deadline := time.Now().Add(20 * time.Second)
+	for {
+		t.mu.Lock()
+		n := t.openTx
+		t.mu.Unlock()
+		if n == 0 {
+			return
+		}
+		if time.Now().After(deadline) {
+			panic("verif harness: " + what)
+		}
+		time.Sleep(5 * time.Microsecond)
+	}
 }
 
 var errInjected = errors.New("verif: injected statement failure")
 var errInjectedCommit = errors.New("verif: injected COMMIT failure")
 
 func (st *Stack) EnableTrace() *Tracer {
-	t := &Tracer{st: st, failCommit: -1}
+	t := &Tracer{st: st, failCommit: -1, cancelCommit: -1}
 	pg := st.PG
+	st.Bun.AddQueryHook(bunCommitHook{t})
 	pg.TxHook = func(s *pgsem.Session, kind string) {
 		t.add(TraceItem{Kind: kind})
+		t.mu.Lock()
+		if kind == "begin" {
+			t.openTx++
+		} else {
+			t.openTx--
+		}
+		t.mu.Unlock()
 	}
 	pg.StmtHook = func(s *pgsem.Session, sql string, res *pgsem.Result, err error) {
-		if err != nil || res == nil {
-			return
-		}
 		q := strings.TrimSpace(sql)
-		if strings.HasPrefix(q, "INSERT INTO ") && strings.Contains(q[:min(len(q), 80)], ".logs (") {
+		isLog := err == nil && res != nil && strings.HasPrefix(q, "INSERT INTO ") && strings.Contains(q[:min(len(q), 80)], ".logs (")
+		defer func() {
+			t.mu.Lock()
+			fire := false
+			if t.cancelStmt > 0 {
+				t.cancelStmtN++
+				if t.cancelStmtN == t.cancelStmt {
+					t.cancelStmt = 0
+					t.CancelHit, t.CancelOnLog = true, isLog
+					fire = true
+				}
+			}
+			fn := t.cancelFn
+			t.mu.Unlock()
+			if fire && fn != nil {
+				fn() // synchronous: the driver sees ctx.Err() != nil as soon as this statement returns
+			}
+		}()
+		if isLog {
 			id := int64(-1)
 			for i, c := range res.Cols {
 				if c == "id" && len(res.Rows) > 0 {
@@ -124,7 +206,17 @@ func (t *Tracer) FailCommitIn(n int) {
 func (t *Tracer) Disarm() {
 	t.mu.Lock()
 	defer t.mu.Unlock()
-	t.failStmt, t.failCommit = 0, -1
+	t.failStmt, t.failCommit, t.cancelStmt, t.cancelCommit, t.cancelFn = 0, -1, 0, -1, nil
+}
+func (t *Tracer) CancelAtStmt(k int, cancel func()) {
+	t.mu.Lock()
+	defer t.mu.Unlock()
+	t.cancelStmt, t.cancelStmtN, t.cancelFn, t.CancelHit, t.CancelOnLog = k, 0, cancel, false, false
+}
+func (t *Tracer) CancelBeforeCommit(n int, cancel func()) {
+	t.mu.Lock()
+	defer t.mu.Unlock()
+	t.cancelCommit, t.cancelFn, t.CancelHit, t.CancelOnLog = n, cancel, false, false
 }
 func (t *Tracer) ResetCount() { t.mu.Lock(); t.Stmts = 0; t.mu.Unlock() }
 
